@@ -67,8 +67,8 @@ contract(Contract(
         "soft_is_newline": "implies(element.soft, result == '\\n')",
         "hard_is_backslash_newline": "implies(not element.soft, result == '\\\\\\n')",
         # only a hard break starts a new output line for certain: it resets the escape context; a soft break (which the
-        # wrapper may re-flow into the middle of a line) keeps it
-        "context_reset_iff_hard": "implies(element.soft, self._current_inline_text == old(self._current_inline_text))"
+        # wrapper may re-flow into the middle of a line) keeps it, recording the break as a word separator
+        "context_reset_iff_hard": "implies(element.soft, self._current_inline_text == old(self._current_inline_text) + '\\n')"
                                   " and implies(not element.soft, self._current_inline_text == '')",
     },
     canaries=[("        if not element.soft:\n", "        if True:\n", None, ["post[context_reset_iff_hard"]),
